@@ -14,7 +14,7 @@ GATES = {
               'layout:indented-comment': 2000, 'layout:blank-separated': 500, 'layout:mixed-class-adjacent': 300, 'layout:file-start': 500,
               'layout:file-end': 300, 'layout:after-last-meta-no-postings': 40, 'layout:before-dedent': 300, 'layout:nested-posting-meta': 100,
               'history_steps': 6000, 'handover_claims': 1500, 'manual_claims_judged': 2500, 'restore_checks': 800, 'idempotence_checks': 2500, 'parse_vs_later_checks': 2500,
-              'parse_vs_later_on_copy': 1000, 'histories_continued_on_copy': 150},
+              'parse_vs_later_on_copy': 1000, 'restore_interleaving:explicit-list': 300, 'histories_continued_on_copy': 150},
     'thorough': {'evaluations': 500000, 'layout:after-last-meta-no-postings': 800},
 }
 RULE = ('case = one document from the comment-layout generator (comment runs, matching or mismatching indentation, adjacent above / below / '
@@ -208,9 +208,17 @@ def run_case(col, r, idx):
             if any(c.claimed for c in un) or any(isinstance(x, models.BlockComment) for x in w):
                 col.violation('restore:unclaim-interleaving', f'{p}.unclaim_interleaving_comments() left claimed comments behind', wit)
                 return
-            w.claim_interleaving_comments()
+            explicit = r.random() < 0.5      # hand back exactly what unclaim returned, or let the list look for itself
+            try:
+                w.claim_interleaving_comments(un) if explicit else w.claim_interleaving_comments()
+            except ValueError as e:
+                col.violation('restore:claim-interleaving-raised' + (':explicit-list' if explicit else ''),
+                              f'{p}: claim_interleaving_comments({"<what unclaim returned>" if explicit else ""}) right after unclaim_interleaving_comments() raised {e}', wit)
+                return
+            col.count('restore_interleaving' + (':explicit-list' if explicit else ''))
             if attribution.ownership_map(f_on) != base_map:
-                col.violation('restore:claim-interleaving', f'{p}: unclaim_interleaving_comments() then claim_interleaving_comments() did not restore the attribution', wit)
+                col.violation('restore:claim-interleaving' + (':explicit-list' if explicit else ''),
+                              f'{p}: unclaim_interleaving_comments() then claim_interleaving_comments() did not restore the attribution', wit)
                 return
         # histories of claim / unclaim / auto calls
         root = f_off if idx % 2 else P.parse(text, models.File, auto_claim_comments=False)
